@@ -9,6 +9,7 @@
 mod oracle_c05;
 mod level_history;
 mod queue_history;
+mod amend_race;
 
 use pricelevel::{OrderId, OrderType, PegReferenceType, Side, TimeInForce};
 use serde::Deserialize;
@@ -97,6 +98,7 @@ fn run(v: serde_json::Value) -> Result<Report, String> {
         }
         "level_history" => level_history::run(&v, &mut rep)?,
         "queue_history" => queue_history::run(&v, &mut rep)?,
+        "amend_race" => amend_race::run(&v, &mut rep)?,
         k => return Err(format!("unknown kind {k}")),
     }
     Ok(rep)
